@@ -10,8 +10,19 @@ use crate::world::{Ev, IoAns, IoKind};
 pub const POLL_BOUND_BASE: usize = 8 * 24 + 16;
 
 pub fn check(t: &Trace<'_>, out: &mut CaseOut) -> bool {
-    let Some(from) = t.log.epilogue_from else { return false };
     let w = t.w;
+    // spinning anywhere in the history is a violation of "no operation loops without bound"
+    for (ev, e) in w.events.iter().enumerate() {
+        if matches!(e, Ev::ClockSpin) {
+            let kind = t.op_at(ev).map(|o| t.log.ops[o].kind).unwrap_or("?");
+            out.violations.push(viol("C16", format!("C16/spin/clock-busy-wait/{}", kind), format!("{} read the clock more than 20000 times without yielding to the executor: it busy-waits on a deadline that lies in the past", kind)));
+        }
+        if matches!(e, Ev::Watchdog) {
+            let kind = t.op_at(ev).map(|o| t.log.ops[o].kind).unwrap_or("?");
+            out.violations.push(viol("C16", format!("C16/spin/{}", kind), format!("{} exceeded the per-call budget of {} transport calls / {} bytes without returning", kind, w.budget_calls, w.budget_bytes)));
+        }
+    }
+    let Some(from) = t.log.epilogue_from else { return false };
     let Some((ci, cop)) = t.log.ops.iter().enumerate().find(|(_, o)| o.step >= from && o.kind == "connect") else { return false };
     let Some(conn) = cop.conn else { return false };
     if t.conns[conn].mps.is_some() {
@@ -30,17 +41,6 @@ pub fn check(t: &Trace<'_>, out: &mut CaseOut) -> bool {
         if !disturbed {
             out.violations.push(viol("C16", "C16/stream-corrupted-on-a-healthy-connection", format!("conn {}: nothing failed and no call was given up, yet the outbound stream stops being MQTT at offset {} ({}): the operations accepted on this connection cannot complete on it", ci2.idx, off, why)));
             break;
-        }
-    }
-    // spinning anywhere in the history is a violation of "no operation loops without bound"
-    for (ev, e) in w.events.iter().enumerate() {
-        if matches!(e, Ev::ClockSpin) {
-            let kind = t.op_at(ev).map(|o| t.log.ops[o].kind).unwrap_or("?");
-            out.violations.push(viol("C16", format!("C16/spin/clock-busy-wait/{}", kind), format!("{} read the clock more than 20000 times without yielding to the executor: it busy-waits on a deadline that lies in the past", kind)));
-        }
-        if matches!(e, Ev::Watchdog) {
-            let kind = t.op_at(ev).map(|o| t.log.ops[o].kind).unwrap_or("?");
-            out.violations.push(viol("C16", format!("C16/spin/{}", kind), format!("{} exceeded the per-call budget of {} transport calls / {} bytes without returning", kind, w.budget_calls, w.budget_bytes)));
         }
     }
     if !matches!(cop.outcome, Outcome::Ok(_)) {
